@@ -577,7 +577,8 @@ fn verdict_case(c: &mut Case<'_>) -> CaseResult {
         _ => EMPTY_SHA256.to_owned(),
     };
     let payload_mode = if base.req.body.is_empty() && payload_mode != UNSIGNED { EMPTY_SHA256.to_owned() } else { payload_mode };
-    let authority = "s3.example.test";
+    // (HTTP/2 form: no Host header, the signed `host` value is the request's :authority - with its port when it has one)
+    let authority: &str = if http2 { *c.t.pick(&["s3.example.test", "s3.example.test:8014", "localhost:9000", "s3.example.test:443", "127.0.0.1:8014"]) } else { "s3.example.test" };
     if http2 {
         base.req.headers.retain(|(n, _)| n != "host");
     }
@@ -637,12 +638,24 @@ fn verdict_case(c: &mut Case<'_>) -> CaseResult {
     if alt.as_deref() == Some("rw:edge-whitespace") && (base.feat.inner_ws) && !c.allow("hdr-inner-ws") {
         return Ok(());
     }
-    let host_fallback = http2.then_some(authority);
+    // the request may reach another authority than the one that was signed (port added, dropped or changed)
+    let mut alt = alt;
+    let mut wire_authority = authority.to_owned();
+    if http2 && alt.is_none() && c.t.chance(48) {
+        wire_authority = match authority.split_once(':') {
+            Some((h, _)) if c.t.bool() => h.to_owned(),
+            Some((h, p)) => format!("{h}:{}", if p == "8014" { "8015" } else { "8014" }),
+            None => format!("{authority}:8014"),
+        };
+        alt = Some("mut:authority".into());
+    }
+    let host_fallback = http2.then_some(wire_authority.as_str());
     let want = sigv4::verify_header(&req, &secret_of, host_fallback);
     // wire form: in HTTP/2 form the URI carries the authority
     let mut wire = req.clone();
     if http2 {
-        wire.path = format!("http://{authority}{}", wire.path);
+        wire.path = format!("http://{wire_authority}{}", wire.path);
+        c.label(if wire_authority.contains(':') { "http2:authority-with-port" } else { "http2:authority-without-port" });
     }
     let class = alt.clone().unwrap_or_else(|| "honest".into());
     c.label(format!("signer:{which_signer}"));
@@ -698,6 +711,49 @@ fn verdict_case(c: &mut Case<'_>) -> CaseResult {
     }
 }
 
+const SK1_ROTATED: &str = "Zr0tatedSecretKeyAfterTheOldOneWasRevoked9";
+
+thread_local! {
+    /// a second service in the same process whose provider knows the same access key under *another* secret (what a
+    /// provider answers after the key's secret was rotated)
+    static ENV_ROTATED: Env = build_env(&EnvCfg { host: HostCfg::None, keys: Some(vec![(AK1.to_owned(), SK1_ROTATED.to_owned())]), provider_denies: None, access: Some(AccessMode::AllowAll), route: RouteMode::None });
+}
+
+/// "... under the provider's secret for that key": a sequence of 2-6 requests for one access key, each signed with one
+/// of two secrets and sent to one of two services whose providers hold one secret each.  Whatever was verified
+/// before, a request is authenticated iff it was signed with the secret of the provider that is asked.
+fn secret_per_provider(c: &mut Case<'_>) -> CaseResult {
+    let n = 2 + c.t.below(5);
+    let region = *c.t.pick(&["us-east-1", "eu-central-1"]);
+    let mut history = Vec::new();
+    for step in 0..n {
+        let signed_with_rotated = c.t.bool();
+        let sent_to_rotated = c.t.bool();
+        let presigned = c.t.chance(80);
+        let signer = Signer { access_key: AK1.into(), secret: if signed_with_rotated { SK1_ROTATED } else { SK1 }.into(), region: region.into(), service: "s3".into(), date16: now_date16(-(step as i64)) };
+        let mut req = Req { method: "GET".into(), path: format!("/bucket/key{}", c.t.below(3)), query: None, headers: vec![("host".into(), "s3.example.test".into())], body: vec![] };
+        if presigned {
+            signer.presign(&mut req, "600", &[]);
+        } else {
+            signer.sign_header(&mut req, if c.t.bool() { UNSIGNED } else { EMPTY_SHA256 }, &[]);
+        }
+        let out = if sent_to_rotated { ENV_ROTATED.with(|env| run_req(env, &req, None, false)) } else { ENV.with(|env| run_req(env, &req, None, false)) }.map_err(crate::engine::Stop::Discard)?;
+        let want = signed_with_rotated == sent_to_rotated;
+        let got = out.authenticated_as().is_some();
+        history.push(format!("{} signed with the {} secret -> provider holding the {} secret: {}", if presigned { "presigned" } else { "header" }, if signed_with_rotated { "new" } else { "old" }, if sent_to_rotated { "new" } else { "old" }, if got { "authenticated" } else { "refused" }));
+        if want != got {
+            c.nontrivial();
+            let sig = if got { "accepts-invalid:secret-of-another-provider" } else { "rejects-valid:secret-history" };
+            return Err(c.fail(sig, format!("step {step}: expected {}\n{}\n{}", if want { "authenticated" } else { "refused" }, history.join("\n"), req.render())));
+        }
+    }
+    c.nontrivial();
+    c.fp(&history);
+    c.label(format!("steps:{n}"));
+    c.set_sample(|| json!({"history": history}));
+    Ok(())
+}
+
 pub fn run(r: &mut Runner) {
     r.rule = "requests (method, any UTF-8 key, query multiset, header multiset, body, payload mode, HTTP/1.1 or HTTP/2 form) signed by the reference signer or aws-sigv4, then left honest / one single-component mutation / one canonical-equivalent rewrite; verdict compared with the reference verifier. Non-trivial: >=1 query pair and >=1 extra signed header, or any alteration; distinct by (signer, alteration class, feature classes, request).".into();
     r.assumptions = vec![
@@ -732,4 +788,5 @@ pub fn run(r: &mut Runner) {
         r.set_header("authorization", &a);
     }));
     r.search("verdicts", r.scale(60_000, 2_000_000), 512, verdict_case);
+    r.search("secret-per-provider", r.scale(4_000, 100_000), 64, secret_per_provider);
 }
